@@ -50,6 +50,18 @@ CHECKS = {
           "round that was due one period earlier, heads consecutive.",
   "design_ref": "DESIGN.md 4 C05", "note": _TRUST + " Liveness on real code is judged on finite traces at quiescence (no message in flight).", "technique": _TECH,
  },
+ "C06": {
+  "text": "Multi-node TLA+ model of one DKG ceremony (first DKG or resharing), checked exhaustively by TLC for 3-4 nodes: every delivery order of proposal/accept/execute gossip and of deal/response/"
+          "justification bundles, the hash-dedupe echo re-broadcast, the leader's proposal lock, start order, phase timeouts, one evicted late node and leavers, every key order x every listing order "
+          "of the participant lists, completion times in a window containing a round boundary. TLC counterexamples and -simulate walks (incl. duplicate deliveries) are replayed on networks of real "
+          "dkg.Process instances (real bolt stores, real signatures, the real kyber DKG, an in-memory net.DKGClient the harness schedules, gates at kick-off and at the clock read); Trace_DKGExec "
+          "re-applies the spec operators to every recorded call and evaluates on what every node's GetFinished holds: SameGroup per field, OwnIndex, ShareOnPoly, ThresholdSigns (every t-subset), "
+          "OrderIndependent. n 1..4 quick / 1..7 thorough, all admissible thresholds, first DKG then reshare (same, add, remove, swap), default scheme quick / all 5 thorough.",
+  "design_ref": "DESIGN.md 4 C06",
+  "note": "Trusted: kyber's Pedersen DKG/resharing under phase synchrony (a timeout fires only after every timely bundle reached every node), kyber tBLS Recover/Verify as signing oracle, one shared "
+          "real wall clock (scripts decide when a node reads it). n >= 5 by simulation and free runs, not exhaustively.",
+  "technique": "TLA+ spec + TLC exhaustive model checking and simulation + behaviour replay on real dkg.Process networks + TLC trace validation",
+ },
  "C07": {
   "text": "Handler level with a fabricated resharing (same secret, fresh polynomial; shapes same/add/remove/replace/threshold-up): remaining members get TransitionNewGroup, joiners start in "
           "catch-up mode, leavers are stopped after the transition, as production does; " + _NET + ". Monitors: distributed key unchanged, C02 monitors across the transition round, "
